@@ -482,7 +482,8 @@ func ruleCoeffSign(w *World, r *RuleResult) {
 					return true
 				}
 				// a Sign() switch on the same coefficient: accept when a Neg/Abs exists on its negative side
-				if n2 == "(*BigInt).Sign" && w.exprOf(f, c2.Common().Args[0]).String() == recvE {
+				// (the test may be made on the pointer the writing call returned, which is its receiver)
+				if n2 == "(*BigInt).Sign" && (w.exprOf(f, c2.Common().Args[0]).String() == recvE || c2.Common().Args[0] == ssa.Value(call)) {
 					for _, c3 := range callsIn(f) {
 						if k, ok := c3.(*ssa.Call); ok && (w.calleeName(k) == "(*BigInt).Neg" || w.calleeName(k) == "(*BigInt).Abs") && w.exprOf(f, k.Common().Args[0]).String() == recvE && c2.Block().Dominates(k.Block()) {
 							return true
